@@ -47,8 +47,8 @@ SAFE = "zq_safe_name"
 BASES = [
     """states(x={x0}, y=2.5)
 parameters(p=0.75, q=-1.5)
-a = p*x + {abs}(y)
-b = a*q - x**2
+a = p*x + {abs}(y) + abs(q)*exp(-x*x) + sqrt(y*y + 1) + floor(q) + Mod(p, 3) + log(x*x + 1)
+b = a*q - x**2 + Conditional(And(Gt(x, 0), Lt(y, 9), Gt(q, -9)), sin(q), cos(q))
 dx_dt = b - p*x
 dy_dt = a + q*y + t
 """,
@@ -279,9 +279,26 @@ def extra(tier, seed):
     """thorough: the finite dictionary x roles x {numpy, C} is enumerated exhaustively (jax: the
     generator-internal names and Python keywords)"""
     out = {"failures": [], "evaluations": 0, "nontrivial": [], "labels": {}, "samples": [], "coverage": {}}
-    if tier != "thorough":
-        return out
     from vlib import odeparse
+
+    if tier != "thorough":
+        # quick: the names the printers and templates themselves emit, on the numpy backend, base 0
+        core = sorted(set(INTERNAL + ["abs", "exp", "log", "sqrt", "floor", "sin", "cos", "tan", "min", "max", "minimum", "maximum", "where", "sign", "logical_and", "logical_or", "logical_not", "pi", "e", "mod", "power", "fmod", "fabs", "pow"]))
+        import multiprocessing as mp
+
+        triples = [(i, r, "numpy", 0) for i in core for r in ("state", "parameter", "intermediate")]
+        with mp.get_context("fork").Pool(16) as pool:
+            res = pool.map(_one, triples, chunksize=4)
+        for triple, sig, detail, labs in res:
+            ident, role, backend = triple[:3]
+            out["evaluations"] += 1
+            case = {"model": odeparse.parse_model(BASES[0].format(x0="1.25", abs="abs")), "identifier": ident, "source": "static", "role": role, "backend": backend}
+            if sig is not None:
+                out["failures"].append((sig, case, detail))
+            else:
+                out["nontrivial"].append(X.sha([ident, role, backend, 0]))
+        out["coverage"] = {"core_identifiers_enumerated": len(core)}
+        return out
 
     model = odeparse.parse_model(BASES[0].format(x0="1.25", abs="abs"))
     res = enumerate_all(("numpy", "C")) + enumerate_all(("jax",), idents=INTERNAL + PYWORDS, procs=8)
